@@ -29,11 +29,9 @@ from vgi_rpc.rpc import (
     AuthContext,
     CallContext,
     OutputCollector,
-    RpcError,
     RpcMethodInfo,
     Stream,
     StreamState,
-    VersionError,
     _ClientLogSink,
     _coerce_input_batch,
     _deserialize_params,
@@ -63,7 +61,12 @@ from vgi_rpc.rpc._common import (
 from vgi_rpc.utils import ArrowSerializableDataclass, ValidatedReader, empty_batch, new_ipc_stream
 
 from .._common import _RpcHttpError
-from ._responses import _current_response_status, _enforce_response_budgets
+from ._responses import (
+    _BAD_REQUEST_ERRORS,
+    _UNREADABLE_REQUEST_ERRORS,
+    _current_response_status,
+    _enforce_response_budgets,
+)
 from ._state_token import (
     _compute_aad,
     _compute_call_aad,
@@ -244,7 +247,7 @@ def _run_stream_init_sync(
             # method raises past this point takes the ordinary error path.
             _validate_call_signature(info.name, kwargs, info.param_types, info.param_defaults, info.params_schema)
             _validate_params(info.name, kwargs, info.param_types)
-        except (pa.ArrowInvalid, TypeError, StopIteration, RpcError, VersionError) as exc:
+        except _BAD_REQUEST_ERRORS as exc:
             raise _RpcHttpError(exc, status_code=HTTPStatus.BAD_REQUEST) from exc
         except Exception as exc:
             # External pointer resolution can fail before stream state exists.
@@ -514,7 +517,10 @@ def _run_stream_exchange_sync(
         try:
             req_reader = ValidatedReader(ipc.open_stream(stream), app._server.ipc_validation)
             input_batch, custom_metadata = req_reader.read_next_batch_with_custom_metadata()
-        except pa.ArrowInvalid as exc:
+        except _UNREADABLE_REQUEST_ERRORS as exc:
+            # Not just ArrowInvalid: a body cut inside its last message raises
+            # OSError, a schema with no batch raises StopIteration, and so on.
+            # Left uncaught they escape to Falcon's generic JSON 500.
             raise _RpcHttpError(exc, status_code=HTTPStatus.BAD_REQUEST) from exc
 
         # Extract both tokens before resolution — resolve_external_location
